@@ -99,3 +99,11 @@ specfun("AlwaysMatches", """
 def AlwaysMatches(fn):
     return getattr(fn, "__name__", "") == "paragraph"
 """, result="bool", axiom="True")
+
+# RuleFires(fn, line): the result of calling rule fn in silent mode on `line` in the current (unchanged) state.
+# Silent calls are pure (generic rule contract), so the result is a function of the rule and the line: an uninterpreted
+# predicate, used to state *which* lines a paragraph-like scan may pass without consulting the terminator rules.
+specfun("RuleFires", """
+def RuleFires(fn, line):
+    return False
+""", result="bool", axiom="True")
